@@ -12,6 +12,7 @@ import (
 	"time"
 
 	"github.com/buildbuildio/pebbles/common"
+	"github.com/buildbuildio/pebbles/gqlerrors"
 
 	"verif/harness/hx"
 )
@@ -23,6 +24,9 @@ type c20Case struct {
 	ErrSet  []int `json:"error_items"`
 	Perturb int64 `json:"perturbation_seed"`
 	Mode    int   `json:"mode"` // 0 none, 1 random yields/sleeps, 2 stall reducer at select, 3 stall workers before send, 4 stall caller
+	// Shared: every failing item returns one and the same *gqlerrors.Error
+	// (a cached sentinel, as a queryer or middleware may keep one)
+	Shared bool `json:"shared_error_object,omitempty"`
 }
 
 type itemErr struct{ x int }
@@ -47,6 +51,7 @@ func runAMRTraced(c c20Case) c20Obs {
 		isErr[e] = true
 	}
 	returned := int32(0)
+	sentinel := &gqlerrors.Error{Message: "item-shared"}
 	var failure atomic.Value
 	fail := func(s string) { failure.CompareAndSwap(nil, s) }
 
@@ -81,6 +86,8 @@ func runAMRTraced(c c20Case) c20Obs {
 		case "amr.r.recverr":
 			if ie, ok := args[1].(itemErr); ok {
 				lab = fmt.Sprintf("LRecvErr %d", ie.x)
+			} else if ge, ok := args[1].(*gqlerrors.Error); ok && c.Shared && ge == sentinel {
+				lab = "LRecvErr ?" // which item sent it is settled after the run (labelShared)
 			} else {
 				lab = "LRecvErr 999999" // an error no map call returned (e.g. nil)
 				fail(fmt.Sprintf("the reducer consumed an error that no map call returned: %v", args[1]))
@@ -147,6 +154,9 @@ func runAMRTraced(c c20Case) c20Obs {
 				fail("mapFunc running after AsyncMapReduce returned")
 			}
 			if isErr[x] {
+				if c.Shared {
+					return 0, sentinel
+				}
 				return 0, itemErr{x}
 			}
 			return x, nil
@@ -174,12 +184,39 @@ func runAMRTraced(c c20Case) c20Obs {
 	if int(atomic.LoadInt32(&reduceCount)) != nOK {
 		fail(fmt.Sprintf("reduceFunc applied %d times for %d successful results by the time the helper returned", reduceCount, nOK))
 	}
-	for _, e := range errs {
-		x, err := strconv.Atoi(strings.TrimPrefix(e.Message, "item-"))
-		if err != nil {
-			x = 999999
+	mu.Lock()
+	if c.Shared {
+		trace = labelShared(trace)
+	}
+	mu.Unlock()
+	if c.Shared {
+		// the errors carry no item number: they are the items the reducer
+		// received, in that order, as far as the returned list goes
+		var recv []int
+		for _, l := range trace {
+			if strings.HasPrefix(l, "LRecvErr ") {
+				x, _ := strconv.Atoi(strings.TrimPrefix(l, "LRecvErr "))
+				recv = append(recv, x)
+			}
 		}
-		o.Errs = append(o.Errs, x)
+		for i, e := range errs {
+			if e.Message != "item-shared" || i >= len(recv) {
+				o.Errs = append(o.Errs, 999999)
+			} else {
+				o.Errs = append(o.Errs, recv[i])
+			}
+		}
+		if len(errs) != len(c.ErrSet) {
+			fail(fmt.Sprintf("%d item(s) failed (all with one shared error object) but %d error(s) were returned", len(c.ErrSet), len(errs)))
+		}
+	} else {
+		for _, e := range errs {
+			x, err := strconv.Atoi(strings.TrimPrefix(e.Message, "item-"))
+			if err != nil {
+				x = 999999
+			}
+			o.Errs = append(o.Errs, x)
+		}
 	}
 	// the property, directly: acc is a permutation of the successes, errs of the failures
 	sa := append([]int{}, o.Acc...)
@@ -222,6 +259,56 @@ func runAMRTraced(c c20Case) c20Obs {
 	return o
 }
 
+// labelShared names the sender of each "LRecvErr ?": the failing items are
+// interchangeable, so any assignment in which x is received after it was mapped
+// is the same run up to renaming. The worker's exit point may be logged before
+// the reducer's receive point (the rendezvous precedes both), so the item that
+// exits earliest is taken first.
+func labelShared(trace []string) []string {
+	exitAt := map[int]int{}
+	for i, l := range trace {
+		if strings.HasPrefix(l, "LWExit ") {
+			x, _ := strconv.Atoi(strings.TrimPrefix(l, "LWExit "))
+			exitAt[x] = i
+		}
+	}
+	out := append([]string{}, trace...)
+	mapped := map[int]bool{}
+	used := map[int]bool{}
+	for i, l := range trace {
+		if strings.HasPrefix(l, "LWMapped ") {
+			var x int
+			var ok bool
+			fmt.Sscanf(strings.TrimPrefix(l, "LWMapped "), "%d %t", &x, &ok)
+			if ok { // the flag says "the map call failed"
+				mapped[x] = true
+			}
+		}
+		if l == "LRecvErr ?" {
+			best, bestExit := -1, 0
+			for x := range mapped {
+				if used[x] {
+					continue
+				}
+				e, has := exitAt[x]
+				if !has {
+					e = len(trace) + x
+				}
+				if best < 0 || e < bestExit || (e == bestExit && x < best) {
+					best, bestExit = x, e
+				}
+			}
+			if best < 0 {
+				out[i] = "LRecvErr 999999"
+			} else {
+				used[best] = true
+				out[i] = fmt.Sprintf("LRecvErr %d", best)
+			}
+		}
+	}
+	return out
+}
+
 func driveC20(seed int64, tier string, out string, replay string) {
 	rng := hx.NewRand(seed)
 	obs := hx.NewObs("C20", seed, tier)
@@ -250,7 +337,7 @@ func driveC20(seed int64, tier string, out string, replay string) {
 		}
 		for len(cases) < runs {
 			n := rng.Intn(maxN + 1)
-			c := c20Case{N: n, Mode: rng.Intn(5), Perturb: rng.Int63()}
+			c := c20Case{N: n, Mode: rng.Intn(5), Perturb: rng.Int63(), Shared: len(cases)%5 == 4}
 			p := rng.Intn(4)
 			for i := 0; i < n; i++ {
 				if p > 0 && rng.Intn(p+1) == 0 {
@@ -284,6 +371,9 @@ func driveC20(seed int64, tier string, out string, replay string) {
 		obs.Count(fmt.Sprintf("n_%02d", c.N))
 		if len(c.ErrSet) > 0 {
 			obs.Count("with_errors")
+		}
+		if c.Shared && len(c.ErrSet) > 1 {
+			obs.Count("several_items_fail_with_one_error_object")
 		}
 		if i%61 == 7 && len(obs.Samples) < 5 {
 			obs.Samples = append(obs.Samples, map[string]interface{}{"case": c, "trace": o.Trace, "acc": o.Acc, "errs": o.Errs})
